@@ -41,9 +41,33 @@ def accept(prop, tier, group=None):
     save(d)
     print(f'{prop} {tier}: {n_new} new, {n_upd} updated, total {len(d["findings"])}')
 
+def prune(prop):
+    """drop listed classes of prop that the latest run (evidence/<prop>.json) did not hit, tighten counts"""
+    d = load()
+    ev = json.load(open(os.path.join(V, 'evidence', prop + '.json')))
+    tier = ev['tier']
+    hits = ev['coverage']['known_finding_hits']
+    keep = []; dropped = 0; tightened = 0
+    for k in d['findings']:
+        if k['property'] != prop:
+            keep.append(k); continue
+        if k['class'] in hits:
+            mc = k.setdefault('max_count', {})
+            if mc.get(tier) != hits[k['class']]:
+                mc[tier] = hits[k['class']]; tightened += 1
+            keep.append(k)
+        else:
+            dropped += 1
+    d['findings'] = keep
+    save(d)
+    print(f'{prop}: dropped {dropped} stale, tightened {tightened}, kept {sum(1 for k in keep if k["property"]==prop)}')
+
 if __name__ == '__main__':
     if sys.argv[1] == 'accept':
         accept(sys.argv[2], sys.argv[3], sys.argv[4] if len(sys.argv) > 4 else None)
+    elif sys.argv[1] == 'prune':
+        for p in sys.argv[2:]:
+            prune(p)
     elif sys.argv[1] == 'stats':
         d = load()
         from collections import Counter
